@@ -362,6 +362,8 @@ CUTSETS = {
     "vecvalue": (r"Vec<serde_json::Value>.*(clone|drop|eq)|<\[serde_json::Value\]", "unreachable", None),
     "evaluate": (r"<op::(Operation|LazyOperation|DataOperation)(<'_>)? as Parser(<'_>)?>::evaluate", "unreachable", None),
     "evaluate_lazy_data": (r"<op::(LazyOperation|DataOperation)(<'_>)? as Parser(<'_>)?>::evaluate", "unreachable", None),
+    # word-at-a-time character counting, only used for strings >= 32 bytes: asserted unreachable for short strings
+    "strcount": (r"core::str::count::do_count_chars", "unreachable", None),
     "nodrop": (NODROP, "noop", None),
 }
 
